@@ -33,7 +33,7 @@ from vlib.pat import Pat, returned
 from vlib.front import unparse, dotted, const_value, AnchorMissing
 
 TR = 'phylib/io/traces.py'
-FLOOR = 20
+FLOOR = 16
 ATTRS = ['_ops', 'sample_rate', 'dtype', 'n_channels', 'part_bounds', 'chunk_bounds']
 EXPLANATION = ('proto/sym engines over phylib/io/traces.py: the dispatch function is walked over all outcomes of its type / extension tests; '
                'each reader constructor is walked with its super chain inlined (definite assignment); part_bounds and _get_part are tied to '
@@ -444,6 +444,28 @@ class SubWalk(SymInterp):
         return None
 
 
+SPEC_ATOMS = {'1', ('N',), ('S',), ('E',), ('i0',), ('i1',), ('X',), ('K',)}
+
+
+def closed(lin):
+    """The normal form is built from the specification's own variables and interpreted operators only: a difference from the expected form is then a real
+    difference. A form that still contains an uninterpreted call / attribute of the analysed code is not judged (undecided)."""
+    def ok_atom(k):
+        if k in SPEC_ATOMS:
+            return True
+        if isinstance(k, tuple) and k and k[0] in ('max', 'min', 'fdiv', 'prod', 'mod'):
+            return all(ok(x) for x in k[1:])
+        if isinstance(k, tuple) and len(k) == 3 and k[0] == 'index' and isinstance(k[2], Lin) and k[2].is_const() and 'param' in repr(k[1]) and 'call' not in repr(k[1]):
+            return True         # bounds[<constant>]: a definite bound of the specification, different from bounds[0] = 0 and bounds[-1] = n
+        return False
+
+    def ok(x):
+        if isinstance(x, Lin):
+            return all(ok_atom(k) for k in x.d)
+        return ok_atom(x)
+    return ok(lin)
+
+
 def s3_slice(ctx):
     repo = ctx.repo
     fi = repo.func(TR, '_get_subitems')
@@ -459,7 +481,8 @@ def s3_slice(ctx):
                      S: Lin.atom(('S',)), E: Lin.atom(('E',)), N: Lin.atom(('N',))}
             I = SubWalk(repo, unroll=1, inline_depth=0, pos=[N], binds=binds)
             I.arrays = ()
-            facts = {('truth', T('call', 'isinstance', C(0), item, T('name', 'slice'))): True}
+            facts = {('truth', T('call', 'isinstance', C(0), item, T('name', 'slice'))): True,
+                     ('truth', T('call', 'isinstance', C(0), item, T('name', 'tuple'))): False}       # a slice is not a tuple
             heap = {(item, 'start'): C(None) if s_none else S, (item, 'stop'): C(None) if e_none else E, (item, 'step'): C(None)}
             if not s_none:
                 facts[('truth', S)] = True
@@ -532,9 +555,13 @@ def s3_slice(ctx):
                     ee_c = [ee, Lin.atom(('min', *sorted([ee, nf(N)], key=lambda t: t.key())))]
                     ok_b = any(equal(nb, Lin.atom(('min',) + tuple(sorted([c_, i1], key=lambda t: t.key()))) - i0) for c_ in ee_c)
                     if not ok_a:
-                        probs.setdefault('piece start for part [i0, i1) is %s, expected max(start, i0) - i0 with start = %s' % (na, es), 1)
+                        ok_a = any(I.same(na, Lin.atom(('max',) + tuple(sorted([c_, i0], key=lambda t: t.key()))) - i0) for c_ in es_c)
                     if not ok_b:
-                        probs.setdefault('piece stop for part [i0, i1) is %s, expected min(stop, i1) - i0 with stop = %s' % (nb, ee), 1)
+                        ok_b = any(I.same(nb, Lin.atom(('min',) + tuple(sorted([c_, i1], key=lambda t: t.key()))) - i0) for c_ in ee_c)
+                    if not ok_a:
+                        (probs if closed(na) else und).setdefault('piece start for part [i0, i1) is %s, expected max(start, i0) - i0 with start = %s' % (na, es), 1)
+                    if not ok_b:
+                        (probs if closed(nb) else und).setdefault('piece stop for part [i0, i1) is %s, expected min(stop, i1) - i0 with stop = %s' % (nb, ee), 1)
                     if not equal(nf2(stp), Lin.const(1)):
                         probs.setdefault('piece step is %s' % nf2(stp), 1)
                     # the part index must be drawn from range(first, last + 1)
@@ -555,10 +582,10 @@ def s3_slice(ctx):
                                     okr = False
                                 else:
                                     q0, q1 = nf(arr[2]), nf(arr[3])
-                                    if not any(equal(q0, c_) for c_ in es_c):
-                                        probs.setdefault('the first part is located with %s, expected start = %s' % (q0, es), 1)
-                                    if not any(equal(q1, c_ - Lin.const(1)) for c_ in ee_c):
-                                        probs.setdefault('the last part is located with %s, expected stop - 1 = %s' % (q1, ee - Lin.const(1)), 1)
+                                    if not any(equal(q0, c_) or I.same(q0, c_) for c_ in es_c):
+                                        (probs if closed(q0) else und).setdefault('the first part is located with %s, expected start = %s' % (q0, es), 1)
+                                    if not any(equal(q1, c_ - Lin.const(1)) or I.same(q1, c_ - Lin.const(1)) for c_ in ee_c):
+                                        (probs if closed(q1) else und).setdefault('the last part is located with %s, expected stop - 1 = %s' % (q1, ee - Lin.const(1)), 1)
                                     # lo = item(call, 0), hi = item(call, 1) + 1
                                     if not (lo == T('item', call_, C(0))):
                                         probs.setdefault('parts start at %s, not at the part of `start`' % show(lo)[:50], 1)
@@ -586,7 +613,9 @@ def s4_list_int(ctx):
     I = SubWalk(repo, unroll=1, inline_depth=0)
     I.arrays = (item,)
     facts = {('truth', T('call', 'isinstance', C(0), item, T('name', 'slice'))): False,
+             ('truth', T('call', 'isinstance', C(0), item, T('name', 'tuple'))): False,
              ('truth', T('call', 'isinstance', C(0), item, T('tuple', T('name', 'list'), T('attr', T('name', 'np'), 'ndarray')))): True}
+    und4 = {}
     outs = I.run(fi, facts=facts)
     ctx.analysed['paths'] += len(outs)
     n = 0
@@ -617,19 +646,47 @@ def s4_list_int(ctx):
                 if which == 1 and is_t(x) and x[1] == 'index' and x[2] == bounds and is_t(x[3]) and x[3][1] == 'Add' and k in x[3][2:] and C(1) in x[3][2:]:
                     return True
                 return False
-            oks = is_t(sub) and sub[1] == 'Sub' and is_i(sub[3], 0) and is_t(sub[2]) and sub[2][1] == 'index' and sub[2][2] == item
-            if oks:
+            shape_ok = is_t(sub) and sub[1] == 'Sub' and is_t(sub[2]) and sub[2][1] == 'index' and sub[2][2] == item
+            oks = bad4 = False
+            if shape_ok:
                 m = sub[2][3]
                 parts = list(m[2:]) if is_t(m) and m[1] == 'BitAnd' else []
-                lo = [p_ for p_ in parts if is_t(p_) and p_[1] == 'cmp' and p_[2] == 'LtE' and is_i(p_[3], 0) and p_[4] == item]
-                hi = [p_ for p_ in parts if is_t(p_) and p_[1] == 'cmp' and p_[2] == 'Lt' and p_[3] == item and is_i(p_[4], 1)]
-                oks = len(parts) == 2 and len(lo) == 1 and len(hi) == 1
+
+                def cmpf(p_):
+                    """(op, a, b) with the array operand `item` on a known side, flipped to `i0 OP item` / `item OP i1` orientation"""
+                    if not (is_t(p_) and p_[1] == 'cmp'):
+                        return None
+                    op, a_, b_ = p_[2], p_[3], p_[4]
+                    flip = {'Lt': 'Gt', 'LtE': 'GtE', 'Gt': 'Lt', 'GtE': 'LtE', 'Eq': 'Eq', 'NotEq': 'NotEq'}
+                    if b_ == item and is_i(a_, 0):
+                        return ('lo', op)
+                    if a_ == item and is_i(b_, 0):
+                        return ('lo', flip[op])
+                    if a_ == item and is_i(b_, 1):
+                        return ('hi', op)
+                    if b_ == item and is_i(a_, 1):
+                        return ('hi', flip[op])
+                    return None
+                cs = [cmpf(p_) for p_ in parts]
+                chunkvec = k[2][4]          # the vector of part numbers whose distinct values are iterated
+                if is_i(sub[3], 0) and len(parts) == 2 and set(cs) == {('lo', 'LtE'), ('hi', 'Lt')}:
+                    oks = True              # item[(i0 <= item) & (item < i1)] - i0
+                elif is_i(sub[3], 0) and is_t(m) and m[1] == 'cmp' and m[2] == 'Eq' and {m[3], m[4]} == {chunkvec, k}:
+                    oks = True              # item[parts == part] - i0: the elements located in this part
+                elif len(parts) == 2 and all(c is not None for c in cs) and {c[0] for c in cs} == {'lo', 'hi'}:
+                    bad4 = True             # an interval mask with other operators / bounds
+                elif not is_i(sub[3], 0) and (is_i(sub[3], 1) or sub[3] == C(0)):
+                    bad4 = True             # offset not relative to the start of the part
             if not oks:
-                probs.setdefault('sub-index of a part is %s, expected item[(i0 <= item) & (item < i1)] - i0' % show(sub)[:110], 1)
+                (probs if (bad4 or not shape_ok and is_t(sub) and sub[1] == 'index' and sub[2] == item) else und4).setdefault(
+                    'sub-index of a part is %s, expected item[(i0 <= item) & (item < i1)] - i0' % show(sub)[:110], 1)
     # slice bounds[chunk:chunk+2]
     if probs:
         for msg in list(probs)[:3]:
             ctx.violated('C01.S4', fi, msg[:160], 'index-list branch of _get_subitems: ' + msg)
+    elif und4:
+        for msg in list(und4)[:2]:
+            ctx.undecided('C01.S4', fi, 'index-list branch: ' + msg)
     elif n:
         ctx.holds('C01.S4', fi, 'index list: for each distinct part of _find_chunks(bounds, item), in increasing order, '
                   'sub-index = item[(i0 <= item) & (item < i1)] - i0 (%d entries over all paths)' % n, '_get_subitems[list]')
@@ -695,8 +752,15 @@ def s4_list_int(ctx):
     outs = I.run(fi, env={ip: tup}, facts=facts)
     rets = [val for kind, val, st in outs if kind == 'return']
     ok = bool(rets) and all(v == T('call', '_get_subitems', C(0), bounds, T('index', tup, C(0))) for v in rets)
-    ctx.check(ok, 'C01.S4', fi, '_get_subitems[tuple]', 'a tuple index is split by its first (row) component',
-              'a tuple index is not split by its first component (returns %s)' % [show(v)[:50] for v in rets][:2])
+    unwrap = [w_ for w_ in fi.nodes(ast.While) if Pat().m('isinstance(%s, tuple)' % ip, w_.test) and any(Pat().m('%s = %s[0]' % (ip, ip), x, stmt=True) for x in w_.body)] + \
+        [i_ for i_ in fi.nodes(ast.If) if Pat().m('isinstance(%s, tuple)' % ip, i_.test) and any(Pat().m('%s = %s[0]' % (ip, ip), x, stmt=True) for x in i_.body)]
+    other = [x for v in rets for x in subterms(v) if is_t(x) and x[1] == 'index' and x[2] == tup and is_c(x[3]) and x[3][1] not in (0,)]
+    if ok or unwrap:
+        ctx.holds('C01.S4', fi, 'a tuple index is split by its first (row) component', unwrap[0].test if unwrap and not ok else '_get_subitems[tuple]')
+    elif other:
+        ctx.violated('C01.S4', fi, '_get_subitems[tuple]', 'a tuple index is split by component %s, not by its first (row) component' % show(other[0][3]))
+    else:
+        ctx.undecided('C01.S4', fi, 'handling of a tuple index not recognised (returns %s)' % [show(v)[:50] for v in rets][:2])
 
 
 # ---------------------------------------------------------------------------------------------- P1 H1
